@@ -24,18 +24,21 @@ CONFIG = dict(
     audit="Audit/C15.lean",
     required_theorems=["shipped_source_facts", "shipped_sound", "shipped_scheduler_correct", "post_exactly_once", "per_poster_fifo", "panic_does_not_block_later",
                        "post_after_stop_is_harmless", "overflow_path_breaks_fifo", "tasks_in_order", "args_threaded",
-                       "error_jumps_to_final", "final_at_most_once", "final_exactly_once", "everything_via_post", "anonymous_service_gets_own_scheduler"],
+                       "error_jumps_to_final", "final_at_most_once", "final_exactly_once", "everything_via_post", "anonymous_service_gets_own_scheduler", "same_name_same_scheduler"],
     harness_pkg="./c15",
     mode="accept",
     reset_prefix="reset",
     runs={
         "quick": [dict(name="main", env={"VERIF_N": "600"}, timeout=120),
                   # the same generators on one P: woken goroutines run late, a systematically different family of schedules
-                  dict(name="p1", env={"VERIF_N": "150"}, procs=1, seed_offset=500, timeout=120)],
+                  dict(name="p1", env={"VERIF_N": "150"}, procs=1, seed_offset=500, timeout=120),
+                  # registry race (outside the bubble): N goroutines GetSche(same fresh name) inside a forced window
+                  dict(name="race", test="TestRace", env={"VERIF_N": "40"}, timeout=120)],
         "thorough": [dict(name="main", env={"VERIF_N": "6000"}, timeout=600),
                      dict(name="seed2", env={"VERIF_N": "5000"}, seed_offset=1000, timeout=600),
                      dict(name="seed3", env={"VERIF_N": "5000"}, seed_offset=2000, timeout=600),
                      dict(name="p1", env={"VERIF_N": "3000"}, procs=1, seed_offset=3000, timeout=600),
+                     dict(name="race", test="TestRace", env={"VERIF_N": "400"}, timeout=600),
                      dict(name="exhaustive", test="TestExhaustive", timeout=600)],
     },
     trivial=r"^(-|ok|ok cap=\d+|bad-op|exec=- .*)?$",
@@ -50,7 +53,11 @@ CONFIG = dict(
          "0/3/997/998/999 queued closures (the starter then blocks in Post on the full channel), each task checked for a usable callback, "
          "completions after Stop; events compared one by one with the model. Multi-service cases: 1-6 anonymous run services "
          "(NewRunService(\"\")) alive at once, numbered and panicking closures and waterfall chains posted to each, services stopped and created in "
-         "any order (created-after-stop included); every closure must run on its own service's loop goroutine. A second run repeats the generators on one P (GOMAXPROCS=1: woken goroutines "
+         "any order (created-after-stop included); every closure must run on its own service's loop goroutine. Re-entrant posts: the consumer, parked in a closure, posts 2-8 closures to its own "
+         "queue at fill 0..cap-2 (within the free slots) and is then one more poster. Failing tasks pass no / one nil / several result values. "
+         "Registry race (real time, outside the bubble): 2-4 goroutines call Mgr.GetSche with one fresh name while the harness holds the "
+         "manager's lock until all are parked on it; all must get the same registered scheduler and every closure posted through any handle "
+         "must run. A second run repeats the generators on one P (GOMAXPROCS=1: woken goroutines "
          "run late). A deterministic sweep (every length x error position x mode, every fill "
          "level x both consumers) runs first. Non-trivial = an op on which at least one closure/task/final ran; distinct = distinct (op, observation) pairs.",
     trusted_base=[
